@@ -39,7 +39,7 @@ def known_findings():
     return out
 
 
-def classify(r, labels=None):
+def classify(r, labels=None, locals_=()):
     """split the failures of one harness result:
        ens    - a labelled ensures clause that belongs to a property (property-level obligation)
        helper - proof-internal obligations: loop invariants/decreases, helper-level ensures (no
@@ -55,6 +55,8 @@ def classify(r, labels=None):
             canary.append(f)
         elif f['label'] and is_post and labels.get(f['label']):
             ens.append(f)
+        elif re.search(r'\.assigns\.', f['id']) and re.match(r'^Check that (\w+) is assignable$', f['desc']) and re.match(r'^Check that (\w+) is assignable$', f['desc']).group(1) in locals_:
+            helper.append(f)        # a local the loop contract does not list: proof-internal
         elif f['label'] or is_post or re.search(r'loop_invariant|loop_decreases|loop_step|loop_assigns|\.unwind\.|\.precondition\.', f['id']) \
                 or ('loop' in f['desc'].lower() and 'invariant' in f['desc'].lower()) or re.search(r'__CPROVER_contracts|no_alloc_dealloc|no_recursive', f['id']):
             helper.append(f)
@@ -148,7 +150,7 @@ def main():
         failed_fns = set(h['fn'] for h, r in zip(hs, rs) if r['status'] != 'ok')
         failed_fns |= set(pu['breaks'])
         for h, r in zip(hs, rs):
-            ens, inv, safety, canary = classify(r, pu['labels'])
+            ens, inv, safety, canary = classify(r, pu['labels'], pu['low']['profile'].fn_locals.get(h['fn'], ()))
             r['_ens'], r['_inv'], r['_safety'] = ens, inv, safety
             dep = sorted(set(h.get('replace', [])) & failed_fns)
             r['_dep'] = dep
@@ -164,7 +166,7 @@ def main():
             b = brs.get(h['name'])
             if b is not None:
                 results.append(b)
-                b['_ens'], b['_inv'], b['_safety'], _c = classify(b, pu['labels'])
+                b['_ens'], b['_inv'], b['_safety'], _c = classify(b, pu['labels'], pu['low']['profile'].fn_locals.get(h['fn'], ()))
             # vacuity guards
             if r['status'] in ('ok', 'failed'):
                 cans = [x for x in r['results'] if 'VACUITY_CANARY' in x['desc']]
@@ -184,24 +186,48 @@ def main():
             if r['status'] == 'ok':
                 continue
             helper_only = False
-            if r['status'] == 'failed' and not r.get('_dep'):
-                # (with an unproved callee contract in play the modular run proves and refutes
-                #  nothing; only the bounded run with the callee inlined counts then)
-                labelled += [(f, r) for f in r['_ens']]
-                for f in r['_safety']:
-                    labelled.append((f, r))
             if b is not None and b['status'] not in ('ok', 'failed'):
                 b['failures'] = []      # an aborted bounded run decides nothing
                 b['_ens'], b['_safety'] = [], []
+            bounded_ok = b is not None and b['status'] == 'ok'
             if b is not None and b['status'] == 'failed':
-                have = set(f['label'] for f, _ in labelled if f['label'])
+                # a counterexample of the bounded run is concrete: real loops, callees inlined, no havoc
                 for f in b['_ens'] + b['_safety']:
-                    if not f['label'] or f['label'] not in have:
-                        labelled.append((f, b))
+                    labelled.append((f, b))
+            if r['status'] == 'failed' and not r.get('_dep'):
+                # A clause refuted by the MODULAR run (callee contracts assumed, loops replaced by
+                # their invariants, ghost state maintained operationally) is a refutation relative to
+                # those abstractions.  It is reported when the bounded run refutes the same clause (added
+                # above), or when the bounded run could not complete; when the bounded run discharged the
+                # clause the native oracle must confirm it on the real code, else the outcome is
+                # "proof broken, not refuted" (DESIGN.md §2.6).
+                have = set(f['label'] for f, _ in labelled if f['label'])
+                for f in r['_ens'] + r['_safety']:
+                    if f['label'] and f['label'] in have:
+                        continue
+                    if bounded_ok:
+                        r['_inv'] = r['_inv'] + [f]      # treated like a proof-internal failure below
+                    else:
+                        labelled.append((f, r))
             if not labelled:
-                why = r.get('msg') or ('%d invariant obligation(s) failed: %s' % (len(r['_inv']), ', '.join(sorted(set(f['label'] or f['id'] for f in r['_inv']))[:6])) if r['status'] == 'failed' else r['status'])
+                why = r.get('msg') or ('%d proof-internal obligation(s) failed: %s' % (len(r['_inv']), ', '.join(sorted(set(f['label'] or f['id'] for f in r['_inv']))[:6])) if r['status'] == 'failed' else r['status'])
                 bs = 'bounded stand-in %s (%s)' % (b['status'], b.get('msg', '%d obligations' % len(b['results']))) if b is not None else 'no bounded run'
-                undecided.append('UNDECIDED: %s/%s: proof not established (%s); %s — property not refuted up to the stated bound' % (unit.NAME, h['name'], why, bs))
+                # An obligation that was discharged on the unchanged tree fails now, but neither run
+                # produced a counterexample to a property-level clause (a loop-invariant counterexample
+                # is a havocked mid-loop state).  Replay on the real code: the unit's native oracle
+                # evaluates this function's property-level postconditions on the neighbourhood of inputs.
+                pf = (r['_inv'] or [dict(id=r['status'], label=None, desc=why, trace='')])[0]
+                if hasattr(unit, 'replay_counterexample') and r['status'] in ('failed', 'binding-break', 'timeout', 'callee-contract-unproved'):
+                    try:
+                        rr = unit.replay_counterexample(pu, h, pf.get('label'), pf, work, tier, seed)
+                    except Exception as e:
+                        rr = dict(failing_input_found=False, replay_error=str(e))
+                    ol = rr.get('oracle_label')
+                    if rr.get('failing_input_found') and ol and prop in (pu['labels'].get(ol) or []):
+                        violations.append(dict(label=ol, unit=unit, pu=pu, harness=h, failure=pf, result=r, bounded_failure=None, bounded=b, replay=rr,
+                                               note='failed proof obligation: %s; refuted on the real code by the native oracle' % (pf.get('label') or pf.get('id'))))
+                        continue
+                undecided.append('UNDECIDED: %s/%s: proof not established (%s); %s — property not refuted' % (unit.NAME, h['name'], why, bs))
                 continue
             seen = set()
             for f, src in labelled:
@@ -239,6 +265,17 @@ def main():
     out_viol = []
     for v in violations:
         rp = write_replay(prop, v, work, tier, seed)
+        if 'UF' in v['harness'].get('flags', []) and not rp.get('failing_input_found') and clause_uses_fp(v):
+            # floating-point operators are uninterpreted in this harness: a failed clause may only mean
+            # that the code computes the value by a different (equivalent in real arithmetic) expression.
+            # Without a failing input on the real code it is not a refutation (DESIGN.md §2.3).
+            undecided.append('UNDECIDED: obligation %s failed under the uninterpreted-FP abstraction but the native oracle (real arithmetic, tolerance 1e-11) found no failing input on the real code; replay=%s' % (v['label'], rp['path']))
+            continue
+        if 'UF' in v['harness'].get('flags', []) and rp.get('oracle_label') and rp.get('oracle_label') != v['label'] and not rp.get('matched_same_obligation'):
+            # confirmed by the oracle, but on a different clause: report under the clause the real code violates
+            if any(x['label'] == rp['oracle_label'] for x in violations):
+                undecided.append('NOTE: obligation %s failed under the uninterpreted-FP abstraction; on the real code the oracle refutes %s (reported separately)' % (v['label'], rp['oracle_label']))
+                continue
         hit = next((k for k in kf if k['prop'] == prop and k['label'] == v['label'] and (not k['sig'] or re.search(k['sig'], rp['signature'] or ''))), None)
         if hit:
             known_hits.append((hit, v))
@@ -311,6 +348,16 @@ def main():
     return 0
 
 
+def clause_uses_fp(v):
+    """does the failed clause compare floating-point / complex values (uninterpreted in UF harnesses)?"""
+    unit, label = v['unit'], v['label']
+    for fn, spec in unit.CONTRACTS.items():
+        for clause in spec.get('contract', []):
+            if clause[0] == label:
+                return bool(re.search(r'CEQ\(|\bc_\w+\(|\bD_[A-Z]+\(|g_p1|BL_SQRT|__CPROVER_equal', clause[2]))
+    return True
+
+
 def write_replay(prop, v, work, tier, seed):
     """replay file: names the failed obligation, carries CBMC's output, and the result of
     replaying the counterexample on the real code through the unit's native oracle."""
@@ -320,7 +367,11 @@ def write_replay(prop, v, work, tier, seed):
     rec = dict(property=prop, obligation=v['label'], unit=unit.NAME, harness=v['harness']['name'], function=v['harness']['fn'],
                cbmc_obligation_id=f['id'], cbmc_description=f['desc'], cbmc_mode=('bounded' if v['bounded_failure'] else v['result']['mode']),
                cbmc_log=v['result'].get('log'), cbmc_trace=f.get('trace', ''), failing_input_found=False, signature='')
-    if hasattr(unit, 'replay_counterexample'):
+    if v.get('note'):
+        rec['note'] = v['note']
+    if v.get('replay'):
+        rec.update(v['replay'])
+    elif hasattr(unit, 'replay_counterexample'):
         try:
             rr = unit.replay_counterexample(v['pu'], v['harness'], v['label'], f, work, tier, seed)
             rec.update(rr)
